@@ -7,7 +7,8 @@ props = [json.loads(l) for l in open(os.path.join(V, "properties.jsonl"))]
 checks, na = [], []
 for p in props:
     pid = p["id"]
-    c = src["checks"].get(pid)
+    cp = os.path.join(V, "vlib", "manifest", pid + ".json")
+    c = json.load(open(cp)) if os.path.exists(cp) else None
     if c and c.get("claimed", True):
         checks.append({
             "property_id": pid,
